@@ -50,6 +50,7 @@ func runC06(p *core.Program, r *core.Report) {
 	r.Rule("C06.fifo", "queue mode: tail enqueue, head dequeue, one drain goroutine", 3)
 	r.Rule("C06.license", "each frame hashes the license in effect for that send: options applied to a fresh struct per send; per-send license if non-empty, else the client's", 4)
 	c05Frame(p, r, "C06.license", true)
+	c06OptionsPure(p, r, "C06.license")
 	r.Rule("C06.frame", "every frame is header + int-length-prefixed body: WriteHeader copies the body out of the buffer before it resets the buffer and writes the header in front (shared with C05.frame)", 3)
 	c05Frame(p, r, "C06.frame", false)
 	r.Rule("C06.encodings", "what a frame carries decodes to the pack that was sent: the variable-length decimal classes and the blob/text length classes the pack bodies are written with are the protocol's (shared with C01.decimal / C01.blob)", 15)
@@ -885,9 +886,20 @@ func c06Fifo(p *core.Program, r *core.Report) {
 		if fi.Pkg != pk || fi.Decl.Body == nil {
 			continue
 		}
+		var loops []ast.Node
 		ast.Inspect(fi.Decl.Body, func(n ast.Node) bool {
+			switch n.(type) {
+			case *ast.ForStmt, *ast.RangeStmt:
+				loops = append(loops, n)
+			}
 			if g, ok := n.(*ast.GoStmt); ok && strings.HasSuffix(stripSpaces(types.ExprString(g.Call.Fun)), ".process") {
 				starters = append(starters, fi.Obj.Name())
+				// a go statement inside a loop starts as many drains as the loop runs
+				for _, l := range loops {
+					if l.Pos() <= g.Pos() && g.End() <= l.End() {
+						starters = append(starters, fi.Obj.Name()+" (in a loop)")
+					}
+				}
 			}
 			return true
 		})
@@ -1168,5 +1180,54 @@ func c06Deadline(p *core.Program, r *core.Report) {
 				"an absolute deadline is armed here and no write to the connection follows in this function (or in the callers of this helper): it is a limit on the connection's age, and once the connection is older than the timeout every send on the healthy link fails")
 			return true
 		})
+	}
+}
+
+// c06OptionsPure: a per-send option is made from its arguments alone. The functions of package net
+// that build a TcpClientOption (WithLicense, WithSecureFlag, …), and the function literals inside
+// them, read and write no package-level variable: an option that looks at shared state when it is
+// applied labels a frame with whatever a later caller put there.
+func c06OptionsPure(p *core.Program, r *core.Report, rule string) {
+	pk := p.Pkg("net")
+	if pk == nil {
+		r.Undec(rule, "net", "-", "package not found")
+		return
+	}
+	n := 0
+	for _, fi := range p.Funcs {
+		if fi.Pkg != pk || fi.Decl.Body == nil || fi.Decl.Recv != nil {
+			continue
+		}
+		sig := fi.Obj.Type().(*types.Signature)
+		if sig.Results().Len() != 1 {
+			continue
+		}
+		nt := namedOf(sig.Results().At(0).Type())
+		if nt == nil || nt.Obj().Name() != "TcpClientOption" || nt.Obj().Pkg() != pk.Types {
+			continue
+		}
+		if sig.Params().Len() == 0 {
+			continue
+		}
+		n++
+		info := fi.Pkg.TypesInfo
+		var shared []string
+		ast.Inspect(fi.Decl.Body, func(m ast.Node) bool {
+			if id, ok := m.(*ast.Ident); ok {
+				if v, ok := info.Uses[id].(*types.Var); ok && v.Pkg() != nil && v.Parent() == v.Pkg().Scope() && strings.HasPrefix(v.Pkg().Path(), core.ModPath) {
+					shared = append(shared, v.Name())
+				}
+			}
+			return true
+		})
+		c := core.FuncName(fi.Obj) + " argument-only"
+		if len(shared) > 0 {
+			r.Viol(rule, c, p.Pos(fi.Decl.Pos()), fmt.Sprintf("the option constructor uses package-level state %v: what the option does when it is applied depends on other calls, so a frame can carry the license (flag, priority) of a different send", uniq(shared)))
+		} else {
+			r.OK(rule, c, p.Pos(fi.Decl.Pos()), "built from its arguments only")
+		}
+	}
+	if n == 0 {
+		r.Undec(rule, "net option constructors", "-", "no function returning TcpClientOption found")
 	}
 }
